@@ -212,7 +212,7 @@ class SessionWorld:
     def base_actions(self):
         acts = list(self.fw.loop_actions(self))
         nt = self.fw.next_timer(self.reactor)
-        if nt is not None:
+        if nt is not None and not (acts and nt - self.now() > 1e-9):
             acts.append((6.0 if nt - self.now() < 1e-3 else 0.7, "tick", lambda: self.fw.fire_next(self)))
         return acts
 
